@@ -190,8 +190,21 @@ let run_pretty_enc (payload : string) : string =
   let cls = match r with M.RDone -> "fin" | M.RErr -> "err" | M.RPanic -> "panic" | M.RCont -> "starved" in
   Printf.sprintf "%s %d | ctx: %s" cls (if cls = "starved" then List.length ts else int_of_nat n) (ctx_verdict M.key_cbor ts)
 
+(* json-dec: "<hex>" -> successive items "ok <tokens> ;; ... ;; err <class> <ntoks>" (at most 4 items) *)
+let run_json_dec (payload : string) : string =
+  let bs = bytes_of_hex (String.trim payload) in
+  let total = List.length bs in
+  let rec go k bs acc =
+    if k = 0 then List.rev acc else
+    match M.jdec_run bs with
+    | M.JDOk (toks, rest) -> go (k - 1) rest ((Printf.sprintf "ok @%d %s" (total - List.length rest) (print_tokens toks)) :: acc)
+    | M.JDFail (e, toks) -> List.rev ((Printf.sprintf "err %s %d" (derr_name e) (List.length toks)) :: acc)
+    | M.JDOutOfFuel _ -> List.rev ("hang" :: acc) in
+  String.concat " ;; " (go 4 bs [])
+
 let dispatch (suite : string) (payload : string) : string =
   match suite with
+  | "json-dec" -> run_json_dec payload
   | "json-enc" -> run_json_enc payload
   | "pretty-enc" -> run_pretty_enc payload
   | "cbor-enc" -> run_cbor_enc payload
